@@ -113,7 +113,8 @@ def check_dep(prog: Program, res: Result) -> None:
     ret = [n for n in walk_function(fi.node) if isinstance(n, ast.Return) and n.value is not None]
     sum_stmt = None
     for s in walk_function(fi.node):
-        if isinstance(s, ast.Assign) and isinstance(s.value, ast.BinOp) and isinstance(s.value.op, ast.Div) and ks in astq.names_in(s.value.left):
+        if isinstance(s, ast.Assign) and isinstance(s.value, ast.BinOp) and isinstance(s.value.op, ast.Div) and ks is not None \
+                and ks in astq.names_in(astq.expand_at(fi.node, s.value.left, s, keep=[ks])):      # sum(ks) / n, the sum possibly named first
             sum_stmt = s
     for s in post:
         zero = astq.const_value(s.value) == 0
@@ -131,7 +132,7 @@ def check_dep(prog: Program, res: Result) -> None:
     # (c) normalisation by the visible count
     ok_c = False
     if sum_stmt is not None:
-        num, den = sum_stmt.value.left, sum_stmt.value.right
+        num, den = astq.expand_at(fi.node, sum_stmt.value.left, sum_stmt, keep=[ks]), sum_stmt.value.right
         is_sum = isinstance(num, ast.Call) and norm(num.func).split(".")[-1] == "sum" and ks in astq.names_in(num)
         dn = den.id if isinstance(den, ast.Name) else None
         ddef = [s for s in astq.assignments_to(fi.node, dn)] if dn else []
